@@ -14,9 +14,10 @@ THEOREMS = [
     "Typedpy.C13.elabField_meaning", "Typedpy.C13.elabField_equiv", "Typedpy.C13.elabClass_equiv",
     "Typedpy.C13.same_fields_and_required", "Typedpy.C13.same_behaviour",
     "Typedpy.C13.statement_partial",
-    "Typedpy.C13.counterexample_pep604_dropped", "Typedpy.C13.counterexample_pep604_nested",
-    "Typedpy.C13.counterexample_field_pipe_none", "Typedpy.C13.counterexample_field_pipe_generic",
-    "Typedpy.C13.counterexample_future_50", "Typedpy.C13.counterexample_falsy_default_kw",
+    "Typedpy.C13.fixed_pep604_plain", "Typedpy.C13.fixed_pep604_nested",
+    "Typedpy.C13.fixed_field_pipe_none", "Typedpy.C13.fixed_field_pipe_generic",
+    "Typedpy.C13.elabField_future_irrelevant", "Typedpy.C13.fixed_future_long",
+    "Typedpy.C13.counterexample_falsy_default_kw",
     "Typedpy.C13.counterexample_union_duplicate", "Typedpy.C13.statement_false",
     "Typedpy.C13.equiv_example",
 ]
